@@ -56,7 +56,7 @@ fn env_case(rng: &mut Rng, projects: &[String], faults: bool) -> Value {
         "lang": rng.pick(&[None, Some("C"), Some("es_ES.UTF-8")]),
         "thor_r": rng.chance(1, 2),
         "thor_v": rng.below(3),
-        "stdout_to": rng.pick(&["pipe", "pipe", "file", "file", "tty"]),
+        "stdout_to": rng.pick(&["pipe", "pipe", "file", "file", "tty", "slow_pipe_stop"]),
         "args_variant": rng.pick(&["plain", "plain", "dup_flag", "unknown_opt"]),
     })
 }
@@ -194,7 +194,7 @@ pub fn run(tier: &str, seed: u64, replay: Option<String>) -> i32 {
         env_jobs.push(json!({"t":"env","project":p,"tool":"hulc2model","use_extra":true,"fs":["stale_gains_table"],"rust_log":Value::Null,
             "path_form":"abs","hash_seed":54321,"fake_time":Value::Null,"lang":Value::Null,"thor_r":false,"thor_v":0}));
         // the documented use: stdout redirected to a file; and an interactive terminal
-        for dev in ["file", "tty"] {
+        for dev in ["file", "tty", "slow_pipe_stop"] {
             env_jobs.push(json!({"t":"env","project":p,"tool":"hulc2model","use_extra":dev == "file","fs":[],"rust_log":Value::Null,
                 "path_form":"abs","hash_seed":0,"fake_time":Value::Null,"lang":Value::Null,"thor_r":false,"thor_v":0,"stdout_to":dev}));
         }
@@ -344,6 +344,11 @@ pub fn run(tier: &str, seed: u64, replay: Option<String>) -> i32 {
         if let Some(d) = j["stdout_to"].as_str() {
             if d != "pipe" {
                 *fired.entry(format!("proc.stdout_device_{}", d)).or_insert(0) += 1;
+            }
+        }
+        if let Outcome::Result(r) = o {
+            if r["stop_cont_in_blocked_write"] == true {
+                *fired.entry("proc.stop_cont_inside_blocked_stdout_write".into()).or_insert(0) += 1;
             }
         }
         for (key, detail) in env_keys(o) {
